@@ -71,8 +71,8 @@ func vpCheckReleased(t *Tunnel, trs []*vpTransport, label string) {
 
 //vp:property C11
 //vp:set good 6 8
-//vp:bounds websocket transport; 0..good well-formed packets (handshake, tunnel-create, tunnel-auth, channel-create, then DATA) followed by each of six ways the client side can end: connection drop, CLOSE_CHANNEL, out-of-order handshake, unframeable bytes, unknown packet type + drop, a further CHANNEL_CREATE for another host; the backend stays quiet (never sends, never closes); dial succeeding or failing
-//vp:assume goroutines are run to completion after the handler returns (no interleaving exploration); "bounded time" is reduced to "no goroutine of the tunnel is left parked forever"
+//vp:bounds websocket transport; 0..good well-formed packets (handshake, tunnel-create, tunnel-auth, channel-create, then DATA) followed by each of six ways the client side can end: connection drop, CLOSE_CHANNEL, out-of-order handshake, unframeable bytes, unknown packet type + drop, a further CHANNEL_CREATE for another host; the backend is quiet or has one chunk in flight towards the client, and stays open or hangs up first (the relay goroutine runs whenever the packet loop waits for the client); dial succeeding or failing
+//vp:assume one cooperative schedule (goroutines switch where the running one waits; the rest run to completion after the handler returns); "bounded time" is reduced to "no goroutine of the tunnel is left parked forever"
 //vp:reach ended
 func VP_C11_ws() {
 	vpResetHandlers()
@@ -80,6 +80,12 @@ func VP_C11_ws() {
 	ending := vpIntRange("ending", 0, 5)
 	tr := vpScript(good, ending)
 	vpNextTransports = []*vpTransport{tr}
+	// the host side: quiet, or one chunk in flight towards the client; it stays open or hangs up first
+	if vpBool("host-sends-a-chunk") {
+		vpBackendChunk = []byte{7}
+	}
+	vpBackendHangsUp = vpBool("host-hangs-up-first")
+	tr.yieldOnRead = true // the relay goroutine runs while the packet loop waits for the client
 	g := &Gateway{}
 	id := vpUser()
 	t := &Tunnel{RDGId: "conn-1", User: id, RemoteAddr: "10.0.0.1:1"}
